@@ -28,8 +28,8 @@ impl Engine for E {
         let mut p = Plan::default();
         match prop {
             "C06" => {
-                p.cases = if quick { 1500 } else { 24_000 };
-                p.timeout_s = if quick { 600 } else { 3600 };
+                p.cases = if quick { 1500 } else { 12_000 };
+                p.timeout_s = if quick { 900 } else { 7200 };
                 p.rule = "case = one random access structure (1-5 credentials x 1-5 keys, sparse indices, thresholds 1..n and n+1) with one transaction built by a transactions::construct builder (5/8 plain, 2/8 sponsored V1 with a second access structure) or one chain update (1/8); every signer-subset scenario (exact, all, above, none, one below per credential / per account, unknown credential, unknown key, one invalid signature at/above/below threshold, swapped, wrong digest, bad length) is verified through each library entry point; evaluations = library verdicts (or constructed values) compared with the harness predicate / recomputed value; distinct_nontrivial = cases with at least one accepting and three rejecting scenarios (updates: every case)".into();
                 p.assumptions = s(&[
                     "ed25519-dalek `VerifyingKey::verify` decides validity of a single signature (the same primitive the library uses); sha2 computes SHA-256",
@@ -39,7 +39,7 @@ impl Engine for E {
                     "the Rust library has no update-instruction verifier: for chain updates only the signing side is judged",
                     SOUNDNESS,
                 ]);
-                let m = if quick { 1 } else { 12 };
+                let m = if quick { 1 } else { 6 };
                 p.floors = floors(&[
                     ("accept.expected", 30_000 * m),
                     ("reject.expected", 200_000 * m),
@@ -81,8 +81,8 @@ impl Engine for E {
                 ]);
             }
             "C19" => {
-                p.cases = if quick { 200 } else { 2400 };
-                p.timeout_s = if quick { 900 } else { 5400 };
+                p.cases = if quick { 200 } else { 1600 };
+                p.timeout_s = if quick { 900 } else { 7200 };
                 p.rule = "case = one construction history of one kind (idx mod 10: BLS single 3x3 matrix + bit flips; aggregate over distinct messages with mutations/duplicates/empty set; aggregate of many signers of one message, sizes 1,2,3,17,150,151; proof of possession; VRF 3 keys x 3 messages full 81-entry matrix + determinism + bit flips; PS known/blind issuance with alternative messages; ed25519 dlog proof); evaluations = verifier verdicts compared with the construction history; distinct_nontrivial = distinct cases (hash of the produced signature/proof)".into();
                 p.assumptions = s(&[
                     "the construction history (which keys signed which messages) is the ground truth; mismatching queries are expected to be rejected up to coincidences of probability ~2^-250",
@@ -91,7 +91,7 @@ impl Engine for E {
                     "a perturbed byte string that no longer decodes counts as rejected",
                     SOUNDNESS,
                 ]);
-                let m = if quick { 1 } else { 8 };
+                let m = if quick { 1 } else { 5 };
                 p.floors = floors(&[
                     ("agg.size.150", if quick { 0 } else { 100 }),
                     ("agg.size.151", if quick { 0 } else { 100 }),
@@ -137,8 +137,8 @@ impl Engine for E {
                 ]);
             }
             "C20" => {
-                p.cases = if quick { 600 } else { 10_000 };
-                p.timeout_s = if quick { 900 } else { 5400 };
+                p.cases = if quick { 600 } else { 6000 };
+                p.timeout_s = if quick { 900 } else { 7200 };
                 p.rule = "case kind = idx mod 20: multiexp (G1 x3, Ristretto x3, G2 x1; length 0..40, boundary scalars, repeated/identity/negated points; curve multiexp and GenericMultiExp at windows 4 and two random sizes), decoding of 40 candidate strings (G1 x2, G2, Ristretto x2, scalars), hash_to_group on the three curves, Pedersen commitments, secret sharing (all t-subsets for n <= 6, supersets, t-1 subsets; field, integers, exponent), key derivation (SLIP-0010 vector 1, random seeds/paths, BLS KeyGen, wallet); evaluations = individual comparisons with the reference; distinct_nontrivial = distinct cases by hash of their inputs".into();
                 p.assumptions = s(&[
                     "group law primitives double_point/plus_point are trusted as the basis of the double-and-add reference (they are arkworks / curve25519-dalek additions)",
@@ -149,7 +149,7 @@ impl Engine for E {
                     "finding F6 (infinity flag with non-zero body / sort flag was accepted by the G1/G2 decoders; repaired in /repo by c2b608181): four pinned witnesses are fed on every decode case as regression inputs and random strings of that shape are judged like every other class",
                     SOUNDNESS,
                 ]);
-                let m = if quick { 1 } else { 12 };
+                let m = if quick { 1 } else { 7 };
                 p.floors = floors(&[
                     ("max.multiexp_len", 38),
                     ("multiexp.default.g1", 700 * m),
@@ -227,7 +227,7 @@ impl Engine for E {
             }
             "C12" => {
                 p.cases = if quick { 60 } else { 900 };
-                p.timeout_s = if quick { 900 } else { 5400 };
+                p.timeout_s = if quick { 900 } else { 7200 };
                 p.rule = "case kind = idx mod 10: encrypt/decrypt of a boundary-weighted amount with ciphertext structure recomputed from the returned randomness (x3), aggregation of two encrypted amounts whose chunk sums stay below 2^32 (x2), encrypted transfer balance/amount pair with honest verification, conservation by decryption, exceeding amounts, and 7-10 perturbations (x2), the same for secret-to-public transfers (x2), chunk model (x1); evaluations = comparisons with integer arithmetic / expected verifier verdicts; distinct_nontrivial = distinct cases by hash of the produced ciphertext / transfer data".into();
                 p.assumptions = s(&[
                     "integer arithmetic on u64 and the independently written 2 x 32-bit chunk model are the ground truth for amounts",
